@@ -1258,7 +1258,8 @@ def oracle_c09(S):
             (c["read"]["r"] != c["sent"]["l"] or c["todo"]["l"] != 0):
         # (a reset reported to one side during the closing handshake, after every byte was delivered, is the accepted
         #  error-closure outcome of the general case; here the transfer itself was cut short)
-        return (f"error closure {c['errcb']} cut the transfer short on a network that never lost a segment: the reader only stalled for "
+        tag = "[zero-window-persist-abort] " if c["stall_only"] >= 31000 and "ECONNABORTED" in c["errcb"]["l"] else ""
+        return (f"{tag}error closure {c['errcb']} cut the transfer short on a network that never lost a segment: the reader only stalled for "
                 f"{c['stall_only']} ms (receive window closed for a while) and then kept reading (read={c['read']}, "
                 f"sent={c['sent']}, never accepted={c['todo']})")
     if c["end"] != "done":
